@@ -18,6 +18,7 @@ mod c07;
 mod c09;
 mod c13;
 mod c14;
+mod c17;
 mod c19;
 mod tracked;
 mod lin;
